@@ -140,6 +140,10 @@ fn create_storage_impl(path: &str) -> std::io::Result<StorageImpl> {
 pub(crate) struct SharedMmap {
     storage: StorageImpl,
     last_touched_at: AtomicU64,
+    #[cfg(walrus_verif)]
+    verif_path: String,
+    #[cfg(walrus_verif)]
+    verif_osync: bool,
 }
 
 // SAFETY: `SharedMmap` provides interior mutability only via methods that
@@ -161,6 +165,10 @@ impl SharedMmap {
         Ok(Arc::new(Self {
             storage,
             last_touched_at: AtomicU64::new(now_ms),
+            #[cfg(walrus_verif)]
+            verif_path: path.to_string(),
+            #[cfg(walrus_verif)]
+            verif_osync: USE_FD_BACKEND.load(Ordering::Relaxed) && should_use_o_sync(),
         }))
     }
 
@@ -169,6 +177,13 @@ impl SharedMmap {
         debug_assert!(offset <= self.storage.len());
         debug_assert!(self.storage.len() - offset >= data.len());
 
+        #[cfg(walrus_verif)]
+        crate::wal::verif::io(crate::wal::verif::Io::Write {
+            path: &self.verif_path,
+            off: offset as u64,
+            data,
+            osync: self.verif_osync,
+        });
         self.storage.write(offset, data);
 
         let now_ms = SystemTime::now()
@@ -189,7 +204,20 @@ impl SharedMmap {
     }
 
     pub(crate) fn flush(&self) -> std::io::Result<()> {
+        #[cfg(walrus_verif)]
+        if let Some(e) = crate::wal::verif::fault("flush") {
+            return Err(e);
+        }
+        #[cfg(walrus_verif)]
+        crate::wal::verif::io(crate::wal::verif::Io::Flush {
+            path: &self.verif_path,
+        });
         self.storage.flush()
+    }
+
+    #[cfg(walrus_verif)]
+    pub(crate) fn verif_path(&self) -> &str {
+        &self.verif_path
     }
 
     #[allow(dead_code)]
